@@ -42,7 +42,7 @@ PROPS['C16'] = dict(level='model_checking',
   ])
 
 PROPS['C08'] = dict(level='model_checking',
-  bounds='v2 scope: 2 nesting threads (nest+start+complete own leaf) + 1 joiner (quick), 1 nester + 2 joiners; K per harness',
+  bounds='v2 scope: 1 nester (nest+start+complete own leaf) racing 1 joiner, and the last completion racing a late nest on a closed scope with a started join (quick, T=2); 2 nesters + 1 joiner, 1 nester + 2 joiners (thorough, T=3); v1 scope: 64 sequential event plans; K per harness',
   outside='more than 2 concurrently nested operations',
   harnesses=[
     H('v2_nest_vs_join', 'C08_scope_v2.cpp', ['h_nest0', 'h_join0'], 18, final='h_final11', desc='nest/start/complete racing join'),
@@ -136,8 +136,8 @@ CFGS = [('c++17', ['NDEBUG']), ('c++20', ['NDEBUG']), ('c++17', ['UNDEBUG']), ('
         ('c++17', ['NDEBUG', 'UNIFEX_ENABLE_CONTINUATION_VISITATIONS=1']), ('c++20', ['UNDEBUG', 'UNIFEX_ENABLE_CONTINUATION_VISITATIONS=1'])]
 def cfgname(std, defs): return std.replace('+', 'p') + ('_dbg' if 'UNDEBUG' in defs else '_rel') + ('_vis' if any('VISIT' in d for d in defs) else '')
 PROPS['C20'] = dict(level='translation_validation',
-  bounds='C05 sequential catalogue (10 expression shapes, symbolic leaf outcomes and payloads) under 6 configurations {C++17,C++20} x {NDEBUG, debug+async stacks} x {visitations 0,1}: every configuration must satisfy the same reference oracle on all inputs; cross-thread resumption of an awaiting task in the release configuration',
-  outside='gcc-vs-clang differences; coroutine expressions under C++17 (not compiled there); async_trace output format; cross-thread resumption with async stacks enabled (deep tier, no verdict)',
+  bounds='C05 sequential catalogue (10 expression shapes, symbolic leaf outcomes and payloads) under 6 configurations {C++17,C++20} x {NDEBUG, debug+async stacks} x {visitations 0,1}: every configuration must satisfy the same reference oracle on all inputs; cross-thread resumption of an awaiting task in the release configuration; inline resumption inside await_suspend (plain and nested task) in the debug and release configurations with the async stack root compared before/after; stop-request thunk join in the release configuration (see C10)',
+  outside='gcc-vs-clang differences; coroutine expressions under C++17 (not compiled there); async_trace output format; cross-thread resumption and the thunk join with async stacks enabled (deep tier, no verdict)',
   harnesses=[SEQ('%s_%s' % (n, cfgname(std, defs)), 'C20_cfg.cpp', 'h20_' + n, std=std, defs=defs, extra=(['$REPO/source/async_stack.cpp'] if 'UNDEBUG' in defs else []), desc='%s under %s %s' % (n, std, ' '.join(defs)))
              for (std, defs) in CFGS for n in ['then', 'upon_error', 'upon_done', 'let_value', 'let_error', 'let_done', 'sequence', 'finally', 'materialize', 'just']])
 
@@ -163,8 +163,8 @@ PROPS['C11'] = dict(level='model_checking',
 
 PROPS['C09']['harnesses'] += [SEQ('future_drop_m%d_r%d' % (m, r), 'C09_future_drop.cpp', 'h_future_drop', exc=True, opts=dict(params=[m, r], max_visits=200), desc='future<tracked> dropped; leaf %s; result %s the drop' % (['completes later', 'completes with a value inside its stop callback'][m], ['not yet stored before', 'already stored before'][r])) for m in (0, 1) for r in (0, 1)]
 PROPS['C10'] = dict(level='model_checking',
-  bounds='sequential, C++20: a two-level task nesting awaiting an inline leaf with symbolic outcome (value/error/done) and payload; at_coroutine_exit order on three exit paths; throwing co_return value; T=2 (release configuration): awaitable resumed on another thread while the suspending thread is still inside await_suspend',
-  outside='stop requests from other threads at suspension points (deep-tier harness, no verdict within 30 min); scheduler hops; gcc coroutine lowering',
+  bounds='sequential, C++20: a two-level task nesting awaiting an inline leaf with symbolic outcome (value/error/done) and payload; at_coroutine_exit order on three exit paths; throwing co_return value; T=2 (release configuration): awaitable resumed on another thread while the suspending thread is still inside await_suspend; sequential (debug and release): awaitable that resumes the handle inline before await_suspend returns; T=2, K=60 (release configuration): the stop-request thunk (_sr_thunk_promise_base) driven directly - completion on the normal or done path racing a stop request (stop callback, deferred stop operation on the inline scheduler, receiver_t), the continuation releases the thunk storage',
+  outside='the thunk join embedded in a whole task<> coroutine or with async stacks enabled (deep-tier harnesses, no verdict within 30 min); member destructors of the thunk in the join harness (storage released without them); scheduler hops; gcc coroutine lowering',
   harnesses=[SEQ('task_nested', 'C10_task.cpp', 'h_task_nested', std='c++20', exc=True, extra=['$REPO/source/async_stack.cpp'], opts=dict(max_rec=8, max_visits=200), desc='task<int> parent awaiting task<int> child awaiting a leaf with symbolic outcome')] +
             [SEQ('task_cleanup_o%d' % o, 'C10_task.cpp', 'h_task_cleanup', std='c++20', exc=True, extra=['$REPO/source/async_stack.cpp'], opts=dict(params=[o], max_rec=8, max_visits=200), desc='two at_coroutine_exit actions, exit path %s' % ['return', 'exception', 'done'][o]) for o in (0, 1, 2)] +
             [SEQ('task_retthrow_%d' % c, 'C10_task.cpp', 'h_task_retthrow', std='c++20', exc=True, extra=['$REPO/source/async_stack.cpp'], opts=dict(params=[c], max_rec=8, max_visits=200), desc='co_return of a tracked result whose construction %s' % ('throws' if c else 'succeeds')) for c in (0, 1)] +
@@ -213,8 +213,8 @@ PROPS['C10']['harnesses'] += [H('task_stop_race_o%d' % o, 'C10_race.cpp', ['h_co
    opts=dict(params=[o], max_rec=8, max_visits=60, prune_budget=5000), desc='task<int> with a stoppable receiver: awaited leaf completes with %s on one thread while a stop request arrives on another (stop-request thunk join)' % ['value', 'error', 'done'][o]) for o in (0, 2)]
 PROPS['C20']['harnesses'] += [H('handoff_race_' + cfgname('c++20', defs), 'C20_race.cpp', ['h_start', 'h_resume'], (100 if 'UNDEBUG' in defs else 60), std='c++20', exc=True, defs=defs, extra=['$REPO/source/async_stack.cpp'], timeout=(7200 if 'UNDEBUG' in defs else 900), tier=('deep' if 'UNDEBUG' in defs else 'quick'),
    opts=dict(max_rec=8, max_visits=60), desc='task<int> awaiting a bool-await_suspend awaitable that is resumed on another thread while the suspending thread is still inside await_suspend, ' + ' '.join(defs)) for defs in (['UNDEBUG'], ['NDEBUG'])]
-THUNK = [H('thunk_join_%s_%s' % (['value', 'done'][d], cfgname('c++20', defs)), 'C10_thunk.cpp', ['h_complete', 'h_stop'], 60, std='c++20', exc=True, defs=defs, extra=['$REPO/source/async_stack.cpp'], timeout=900,
-   opts=dict(params=[d], max_rec=8, max_visits=60), desc='stop-request thunk of task<> driven directly: completion (%s path) on one thread races a stop request (stop callback, deferred stop operation, receiver_t) on another; %s' % (['normal', 'done'][d], ' '.join(defs))) for defs in (['UNDEBUG'], ['NDEBUG']) for d in (0, 1)]
+THUNK = [H('thunk_join_%s_%s' % (['value', 'done'][d], cfgname('c++20', defs)), 'C10_thunk.cpp', ['h_complete', 'h_stop'], 60, std='c++20', exc=True, defs=defs, extra=['$REPO/source/async_stack.cpp'], timeout=(7200 if 'UNDEBUG' in defs else 900), tier=('deep' if 'UNDEBUG' in defs else 'quick'),
+   opts=dict(params=[d, 0], max_rec=8, max_visits=60), desc='stop-request thunk of task<> driven directly: completion (%s path) on one thread races a stop request (stop callback, deferred stop operation, receiver_t) on another; %s' % (['normal', 'done'][d], ' '.join(defs))) for defs in (['UNDEBUG'], ['NDEBUG']) for d in (0, 1)]
 PROPS['C10']['harnesses'] += THUNK
 PROPS['C20']['harnesses'] += THUNK
 PROPS['C20']['harnesses'] += [SEQ('handoff_inline_n%d_%s' % (n, cfgname('c++20', defs)), 'C20_race.cpp', 'h_inline', std='c++20', exc=True, defs=defs, extra=['$REPO/source/async_stack.cpp'], opts=dict(params=[n], max_rec=10, max_visits=200),
